@@ -162,4 +162,11 @@ def r3(ctx):
                   f"`{norm(bad[0]) if bad else ''}` is read/rewritten by {name}")
 
 
-RULES = [("C13.R1", r1), ("C13.R2", r2), ("C13.R3", r3)]
+
+def f1(ctx):
+    """generic same-name parameter forwarding over this property's modules (see shared.generic_forwarding)."""
+    from . import shared as _sh
+    _sh.generic_forwarding(ctx, "C13.F1", _sh.PROPERTY_MODULES["C13"])
+
+
+RULES = [("C13.R1", r1), ("C13.R2", r2), ("C13.R3", r3), ("C13.F1", f1)]
